@@ -35,7 +35,9 @@ def literal_then_gap(fail):
 def mlstring_in_child_line_reflow(fail):
     """F6: reflow of a line whose child lines were cached before a multi-line string was re-indented"""
     t = _text(fail)
-    return fail.get("kind") == "not_idempotent" and "'''" in t
+    fam = fail.get("ml_families") or {}
+    # the stale cache holds CHILD-line solutions: a literal whose line family has no child lines is outside the class
+    return fail.get("kind") == "not_idempotent" and "'''" in t and fam.get("in_family_with_children", 0) > 0
 
 
 def trailing_exotic_blank_in_line_comment(fail):
@@ -118,7 +120,8 @@ def mlstring_width_dependence(fail):
     """F25: a multi-line string inside a wrapped line: the wrapper measures the literal's last line
     around its re-indentation, so the chosen wrapping of what follows the literal depends on the limit
     even when everything fits (same root as F6)"""
-    return fail.get("kind") == "width_is_style_switch" and "'''" in _text(fail)
+    fam = fail.get("ml_families") or {}
+    return fail.get("kind") == "width_is_style_switch" and "'''" in _text(fail) and fam.get("in_family_with_children", 0) > 0
 
 
 def lone_cr_after_line_comment(fail):
